@@ -129,7 +129,33 @@ def run(ctx):
             make_pairs(r2, sc, r2.choice([0.0, 0.0, 0.3]))
             d = os.path.join(wd, "run")
             shutil.rmtree(d, ignore_errors=True)
+            # optionally hand the reads over as TWO alignment files that reuse the same read names (two sequencing
+            # runs numbering their reads alike): whatshap must keep same-named reads of different files apart
+            two_files = r2.random() < 0.3
+            file_of = {}
+            if two_files:
+                counters = [0, 0]
+                newname = {}
+                for r in sc.reads:
+                    if r["name"] not in newname:
+                        f = r2.randrange(2)
+                        newname[r["name"]] = (f, f"q{counters[f]}")
+                        counters[f] += 1
+                    f, nm = newname[r["name"]]
+                    r["name"] = nm
+                    file_of[id(r)] = f
             fa, bam, vcf = sc.write(d)
+            bams = [bam]
+            if two_files and len({file_of[id(r)] for r in sc.reads}) < 2:
+                two_files = False    # an empty alignment file is rejected by whatshap (not a C02 matter)
+                file_of = {id(r): 0 for r in sc.reads}
+            if two_files:
+                bams = []
+                for f in (0, 1):
+                    bp = os.path.join(d, f"in{f}.bam")
+                    sim.write_bam(bp, sc.contigs, [r for r in sc.reads if file_of[id(r)] == f], sc.read_groups())
+                    bams.append(bp)
+            ctx.dist("alignment_files", len(bams))
             args = ["phase", "-r", fa, "-o", os.path.join(d, "out.vcf")]
             tag = r2.choice(["PS", "HP"])
             args += ["--tag", tag]
@@ -141,7 +167,7 @@ def run(ctx):
                 target = r2.sample(sc.samples, r2.randrange(1, nsamp))
                 for s in target:
                     args += ["--sample", s]
-            args += [vcf, bam]
+            args += [vcf] + bams
             rc, out, err, trace = sim.whatshap(args, ctx.overlay, trace=os.path.join(d, "trace.jsonl"))
             ctx.evaluated()
             desc = {**case, "args": args[1:], "samples": sc.samples, "kinds": list(kinds), "deep": deep}
@@ -178,12 +204,12 @@ def run(ctx):
             # ---- seam checks on the trace
             truth_of_read = {}
             for r in sc.reads:
-                truth_of_read.setdefault(r["name"], (r["sample"], r["hap"]))
+                truth_of_read.setdefault((file_of.get(id(r), 0), r["name"]), (r["sample"], r["hap"]))
             for tr in trace:
                 chrom = tr["chrom"] if "chrom" in tr else tr["chromosome"]
                 posidx = {v.pos: i for i, v in enumerate(sc.variants[chrom])}
                 for rd in tr["all_reads"]:
-                    s, h = truth_of_read[rd["name"]]
+                    s, h = truth_of_read[(rd["source_id"], rd["name"])]
                     hv = sc.haps[(s, chrom)][h]
                     for pos, al, q in rd["variants"]:
                         if hv[posidx[pos]] != al:
